@@ -109,11 +109,11 @@ fn main() {
             "what TraceparentCtxt enumerates for trace_id/span_id/span_parent depends on sampling state and is not predicted (coherence only)",
         ],
         |s| {
-            s.require("duplicates", 1500);
-            s.require("erased", 1000);
-            s.require("hash-backed", 1000);
-            s.require("depth>=2", 1000);
-            s.gen("runtime-trees", s.n(150_000, 3_000_000), case, check_case);
+            s.require("duplicates", 3000);
+            s.require("erased", 3000);
+            s.require("hash-backed", 3000);
+            s.require("depth>=2", 3000);
+            s.gen("runtime-trees", s.n(300_000, 3_000_000), case, check_case);
 
             // ---- generated programs of macro call sites (engine E5)
             s.require("renamed-reorders-sort", 8);
